@@ -1,6 +1,7 @@
 CFG = {
     "modules": ["Parsley.Props.C08", "Parsley.Lemmas.ConformsStab", "Parsley.Lemmas.TypeCheckSound", "Parsley.Props.C08Frag",
-                "Parsley.Lemmas.TypeCheckComplete", "Parsley.Lemmas.ConformsNorm", "Parsley.Spec.TypeCheckWF"],
+                "Parsley.Lemmas.TypeCheckComplete", "Parsley.Lemmas.ConformsNorm", "Parsley.Spec.TypeCheckWF",
+                "Parsley.Props.C08Unwind"],
     "theorems": [
         "Parsley.C08.conforms_perm_alternatives", "Parsley.C08.Conforms_perm_alternatives",
         "Parsley.C08.conforms_perm_keys", "Parsley.C08.conforms_antitone",
@@ -14,6 +15,11 @@ CFG = {
         "Parsley.TC.Complete.checkType_complete", "Parsley.TC.Complete.run_complete", "Parsley.TC.Complete.step_ok",
         "Parsley.TC.Complete.unwind_ok", "Parsley.TC.Complete.processCheck_spec", "Parsley.TC.Complete.conforms_disj_alt",
         "Parsley.TC.Complete.closedC_chkU", "Parsley.TC.Norm.conforms_norm", "Parsley.TC.Norm.wfChk_norm",
+        # sweep follow-up: the two surviving mutants of State::unwind (`next_idx > 0` -> `>= 0`; final `return false` -> `true`) are
+        # EQUIVALENT: same verdict, error kind and work-loop count for every configuration, graph, context, object, specification
+        "Parsley.C08.unwind_mutants_equivalent", "Parsley.C08.settle", "Parsley.C08.step_rel", "Parsley.C08.stepU_unwindOr",
+        "Parsley.C08.checkTypeFuelM_ff", "Parsley.C08.unwind_sees_unstarted_disjunction_witness",
+        "Parsley.C08.unwind_empties_stack_witness",
         "Parsley.C08.machine_eq_conforms_leaf", "Parsley.C08.machine_eq_conforms_partial",
         "Parsley.C08.F1_fails_for_orig_witness", "Parsley.C08.shared_alternative_leak_witness",
         "Parsley.C08.memo_leak_witness", "Parsley.C08.disjunct_attrs_dropped_witness",
@@ -48,12 +54,26 @@ CFG = {
             "self reference; random: specs of depth <= 3 from all constructors (named recursive types, predicates, indirect "
             "requirements) x graphs of <= 3 random objects + objects fitted to the spec (60%) or random (40%); non-trivial = "
             "compound specification or compound/reference object; objects fitted to a sized array are one element too long or too short one time in four; the judge evaluates the fragment predicates Frag.inF1/inF2 and Frag.wfSpec on every disagreement of the tree configuration (inside a fragment, or a false reject on a well-formed specification, it is a violation, never a known finding; quick tier: 5134 of 10926 generated cases lie in F1, 4294 of them with a compound specification, 1721 cases with a disjunction lie in F2); + n/10 cyclic container graphs whose cycle passes through a "
-            "disjunction-typed edge (kids typed leaf|node|tmpl by name)",
+            "disjunction-typed edge (kids typed leaf|node|tmpl by name); sweep follow-up: unwind_registered.case (17 hand-built cases) + "
+            "EXHAUSTIVE both tiers: dictionaries {A,B,C} with every entry typed Integer / Integer|Name / that disjunction behind a "
+            "name x every assignment of an integer, a string, a name to the three keys (729 cases: a failing check followed at every "
+            "distance by not-yet-started disjunctions) and arrays of 1..3 values against element types that are disjunctions (plain, "
+            "named, with a compound alternative, with a predicate of their own; 420 cases) + n/5 random containers of 2..4 such "
+            "members with one or two wrong ones WRAPPED in an outer disjunction (first / later alternative / behind a name), an outer "
+            "dictionary with unstarted entries behind, an outer array, or nested twice + named types of EVERY CONSTRUCTOR KIND (the "
+            "harness builds a type with TypeCheck::new / new_refined / new_indirect / new_all exactly as client code would: no "
+            "predicate & indirect allowed / predicate only / indirect requirement only / both): 7 attribute kinds x 5 bodies (name, "
+            "Any, dictionary, array, disjunction) x 8 positions that reference the type BY NAME (top level, dictionary entry, array "
+            "element, heterogeneous element, alternative, wildcard entry, stream entry, through a second named type) x 2 fitted objects "
+            "(with the indirect objects an indirect requirement needs) + 1 random object, a decoy registered first under the same "
+            "name one time in three (840 cases)",
     "trusted_base": COMMON_TB + [
         "modelled, not verified: BTreeSet/BTreeMap/VecDeque/Rc semantics (memo as a list with the derived structural equality; "
         "predicate identity = structural equality of the model predicate: the harness interns predicates)",
         "the declarative reading Spec/Conforms.lean (greatest fixed point of confStep) is the definition of `conforms`",
         "verif hooks C08-00 (DictEntry/DictStarEntry constructors, work-loop counter); harness decoder harness/src/tc_common.rs "
+        "(named and anonymous checks are built with the constructor client code would use for their attributes: new / new_refined / "
+        "new_indirect / new_all) "
         "(cases run in a worker process under a watchdog: `hang` after 8 s, `crash:<rc>` if the worker dies)",
         "reference chasing: the Rust loop with a visited set is modelled by a fuel-bounded chase (fuel = definitions + 1); equal on "
         "graphs with unique ids (argument in Model/TypeCheck.lean), exercised by the correspondence run",
@@ -88,5 +108,10 @@ LEVEL = {
             "generated case. Eleven defects were found; nine are repaired (commits C08-01..09 in /repo), two remain as known findings "
             "(memo leak across alternatives of a disjunction; Any-typed entry with an indirect requirement skipped, asserted by a "
             "test of the crate) with an executable single-repair classifier and witness theorems; all recorded findings are false "
-            "accepts, as the completeness theorem says they must be.",
+            "accepts, as the completeness theorem says they must be. Mutation-sweep follow-up: the two single-token mutants of "
+            "State::unwind that no input distinguishes (`next_idx > 0` -> `>= 0`, final `return false` -> `return true`) are PROVED "
+            "equivalent (unwind_mutants_equivalent, Props/C08Unwind.lean: for every configuration, graph, context, object and "
+            "specification the mutated check_type finishes with the same verdict, error kind and work-loop count; both situations "
+            "are reachable - witnesses - but every call site of unwind continues the get_next_check loop with the unchanged error, "
+            "which discards the same pending sets one iteration later).",
 }
